@@ -133,18 +133,27 @@ class USym(UBase):
     def packer(self):
         return PackerModel(StructModule())
 
+    def _new(self, name):
+        # two draws under one name would be the SAME solver variable (silently equal): a contract bug, never a proof
+        if name in ctx().inputs:
+            raise RuntimeError("contract draws the input %r twice on one path" % name)
+
     def int(self, name, lo, hi):
+        self._new(name)
         return core.fresh_int(name, lo, hi)
 
     def bool(self, name):
+        self._new(name)
         return core.fresh_bool(name)
 
     def bytes(self, name, n):
+        self._new(name)
         return core.fresh_bytes(name, n)
 
     def str(self, name, n, lo=0, hi=0x10FFFF):
         """string of n symbolic code points in lo..hi"""
         from .strings import fresh_str
+        self._new(name)
         return fresh_str(name, n, lo, hi)
 
     def buffer(self, prefix, name, n):
